@@ -409,6 +409,10 @@ namespace bloch::compiler {
 
         std::vector<std::unique_ptr<AnnotationNode>> trailingAnnotations = parseAnnotations();
         for (auto& ann : trailingAnnotations) annotations.push_back(std::move(ann));
+        for (const auto& ann : annotations) {
+            if (ann && ann->name == "shots")
+                reportError("'@shots(N)' can only decorate the main() function.");
+        }
 
         if (match(TokenType::Constructor)) {
             if (!annotations.empty()) {
@@ -716,9 +720,12 @@ namespace bloch::compiler {
         while (check(TokenType::At)) {
             // TODO: refactor this, currently if invalid variable annotation is used, it will be
             // caught rather than thrown this is a rather hacky solution.
+            const size_t annotationStart = m_current;
             try {
                 annotations.push_back(parseVariableAnnotation());
             } catch (BlochError error) {
+                // Rewind to the '@' so the retry sees the whole annotation again.
+                m_current = annotationStart;
                 annotations.push_back(parseFunctionAnnotation());
             }
         }
